@@ -989,8 +989,9 @@ class _Source:
 
     def _get_number_pattern(self):
         # HACK: It is merely an approaximation and does the job
-        integer = r"\-?(0[xo][\da-fA-F]+|\d+)"
-        return r"(%s(\.\d*)?|(\.\d+))([eE][-+]?\d+)?[jJ]?" % integer
+        prefixed = r"0[xXoObB][\da-fA-F_]+"
+        decimal = r"(\d[\d_]*(\.[\d_]*)?|\.\d[\d_]*)([eE][-+]?\d[\d_]*)?[jJ]?"
+        return r"\-?(%s|%s)" % (prefixed, decimal)
 
     _string_pattern = None
     _number_pattern = None
